@@ -39,7 +39,7 @@ def tstr(t):
 
 
 def sdl():
-    out = ["input In { k: Int, j: Int }"]
+    out = ["input In { k: Int, j: Int, n: In, l: [[In]] }"]
     for n, d in TYPES.items():
         if d["kind"] == "SCALAR":
             continue
@@ -48,7 +48,7 @@ def sdl():
             continue
         impl = " implements I" if n in ("A", "B") else ""
         kw = "interface" if d["kind"] == "INTERFACE" else "type"
-        fs = " ".join(("f(arg: Int, obj: In): Int" if f == "f" else f"{f}: {tstr(t)}") for f, t in d["fields"].items())
+        fs = " ".join(("f(arg: Int, obj: In, lo: [In], ll: [[In]]): Int" if f == "f" else f"{f}: {tstr(t)}") for f, t in d["fields"].items())
         out.append(f"{kw} {n}{impl} {{ {fs} }}")
     return "\n".join(out)
 
@@ -56,7 +56,14 @@ def sdl():
 # (normalised argument value for the specification, text); object fields in either key order normalise equally
 ARGS = [("", ""), ("arg:1", "(arg: 1)"), ("arg:2", "(arg: 2)"), ("arg:$v", "(arg: $v)"), ("arg:$w", "(arg: $w)"),
         ("obj:{j:2,k:1}", "(obj: {k: 1, j: 2})"), ("obj:{j:2,k:1}", "(obj: {j: 2, k: 1})"), ("obj:{j:2,k:$v}", "(obj: {j: 2, k: $v})"),
-        ("arg:1,obj:{j:2,k:1}", "(obj: {k: 1, j: 2}, arg: 1)"), ("arg:1,obj:{j:2,k:1}", "(arg: 1, obj: {j: 2, k: 1})")]
+        ("arg:1,obj:{j:2,k:1}", "(obj: {k: 1, j: 2}, arg: 1)"), ("arg:1,obj:{j:2,k:1}", "(arg: 1, obj: {j: 2, k: 1})"),
+        # input objects below lists, lists of lists and other objects: key order is immaterial at every depth, item order is not
+        ("lo:[{j:2,k:1}]", "(lo: [{k: 1, j: 2}])"), ("lo:[{j:2,k:1}]", "(lo: [{j: 2, k: 1}])"),
+        ("ll:[[{j:2,k:1}]]", "(ll: [[{k: 1, j: 2}]])"), ("ll:[[{j:2,k:1}]]", "(ll: [[{j: 2, k: 1}]])"), ("ll:[[{j:2,k:2}]]", "(ll: [[{k: 2, j: 2}]])"),
+        ("ll:[[{j:2,k:1}],[{j:3,k:1}]]", "(ll: [[{k: 1, j: 2}], [{j: 3, k: 1}]])"), ("ll:[[{j:2,k:1}],[{j:3,k:1}]]", "(ll: [[{j: 2, k: 1}], [{k: 1, j: 3}]])"),
+        ("ll:[[{j:3,k:1}],[{j:2,k:1}]]", "(ll: [[{j: 3, k: 1}], [{k: 1, j: 2}]])"),
+        ("obj:{j:2,n:{j:1,k:2}}", "(obj: {n: {k: 2, j: 1}, j: 2})"), ("obj:{j:2,n:{j:1,k:2}}", "(obj: {j: 2, n: {j: 1, k: 2}})"),
+        ("obj:{l:[[{j:1,k:$v}]]}", "(obj: {l: [[{k: $v, j: 1}]]})"), ("obj:{l:[[{j:1,k:$v}]]}", "(obj: {l: [[{j: 1, k: $v}]]})")]
 
 
 class Gen:
@@ -108,11 +115,16 @@ def family(rnd, g):
 
     def S(name):
         return {"k": "S", "name": name}
-    kind = rnd.choice(["name", "args", "shape", "none"])
+    kind = rnd.choice(["name", "args", "shape", "none", "same-args", "same-args"])
     if kind == "name":
         left, right = F("x", "p"), F("f", "p")
     elif kind == "args":
         left, right = F("f", "p", ARGS[1]), F("f", "p", rnd.choice([ARGS[2], ARGS[3], ARGS[0]]))
+    elif kind == "same-args":
+        # the same argument values spelled differently (key order of input objects at any depth): no conflict
+        a1 = rnd.choice([a for a in ARGS if sum(1 for b in ARGS if b[0] == a[0]) > 1])
+        a2 = rnd.choice([b for b in ARGS if b[0] == a1[0] and b[1] != a1[1]])
+        left, right = F("f", "p", a1), F("f", "p", a2)
     elif kind == "shape":
         left, right = F("x", "p"), F("i", "p", sel=g.ss([F("x")]))
     else:
